@@ -283,6 +283,44 @@ def path_special(c, job, mt, ntcore):
         c.prove("C09.key no-other-topics", set(ntcore.STORE.values) == {f"/components/{n}/{a}" for n in ("n1", "n2") for a in ("a", "n")},
                 info=dict(got=sorted(ntcore.STORE.values)))
         return
+    if what == "shared-descriptor":
+        # one tunable object exposed by two classes under different names (the second class is defined later)
+        when = c.choose("second_class_defined", 2)  # before / after the first instance is bound
+
+        class Shooter:
+            speed = mt.tunable(1.5)
+            aim = mt.tunable(2.5, subtable="pid")
+
+        sh = Shooter()
+        if when == 0:
+            class Intake:
+                rate = Shooter.speed
+                gain = Shooter.aim
+        mt.setup_tunables(sh, "shooter", "components")
+        if when == 1:
+            class Intake:
+                rate = Shooter.speed
+                gain = Shooter.aim
+        it = Intake()
+        mt.setup_tunables(it, "intake", "components")
+        sh2 = Shooter()
+        mt.setup_tunables(sh2, "shooter2", "components")
+        want = {"/components/shooter/speed", "/components/shooter/pid/aim", "/components/intake/rate", "/components/intake/pid/gain",
+                "/components/shooter2/speed", "/components/shooter2/pid/aim"}
+        c.reach("shared-descriptor")
+        c.prove("C09.key no-other-topics", set(ntcore.STORE.values) == want, info=dict(got=sorted(ntcore.STORE.values)))
+        v1, v2, v3 = c.real("v1", -100, 100), c.real("v2", -100, 100), c.real("v3", -100, 100)
+        sh.speed = v1
+        it.rate = v2
+        sh2.speed = v3
+        c.prove("C09.rw nt-side-sees-python-write", s_eq(ntcore.STORE.values.get("/components/shooter/speed"), v1) if "/components/shooter/speed" in ntcore.STORE.values else False)
+        for o, a, v in ((sh, "speed", v1), (it, "rate", v2), (sh2, "speed", v3)):
+            try:
+                got = getattr(o, a)
+            except Exception as e:
+                got = f"<read failed: {type(e).__name__}>"
+            c.prove("C09.rw read-returns-latest-from-either-side", _same(got, v), info=dict(attr=a, shared_descriptor=True))
+        return
     if what == "falsy-owner":
         # a component that is container-like: its truth value changes over time (empty queue = falsy)
         class Queue:
@@ -369,14 +407,14 @@ class C09(Spec):
         j += [dict(kind="rw", owner="components", subtable=None, type="int", K=1, redefine=True),
               dict(kind="rw", owner="robot", subtable="s", type="float", K=1, redefine=True)]
         j += [dict(kind="special", what="equal-owners", K=3 if tier == "quick" else 5), dict(kind="special", what="falsy-default"),
-              dict(kind="special", what="falsy-owner", K=3 if tier == "quick" else 5)]
+              dict(kind="special", what="falsy-owner", K=3 if tier == "quick" else 5), dict(kind="special", what="shared-descriptor")]
         return j
 
     def bounds(self, tier):
         return dict(K=4 if tier == "quick" else 5, jobs=self.jobs(tier), values="symbolic real/int/bool per write; strings concrete tokens")
 
     def reach_required(self, tier):
-        return ["type-table", "preexisting-value", "existing-preserved", "existing-overwritten", "py-write", "nt-write", "redefined-tunable", "equal-owners", "falsy-default-with-existing-value", "falsy-owner"]
+        return ["type-table", "preexisting-value", "existing-preserved", "existing-overwritten", "py-write", "nt-write", "redefined-tunable", "equal-owners", "falsy-default-with-existing-value", "falsy-owner", "shared-descriptor"]
 
     def extra(self, tier, seed):
         from real.run import nt_contract
